@@ -14,12 +14,15 @@ def _mk(gen, idx):
     def install(eng):
         api_common.install_time_stubs(eng)
         models_rel.install_rel(eng, {'ddl': rel_common.ddl_for(gen, idx)})
-        if os.environ.get('VERIF_RAW_READER', '1') == '1': raw_reader.install(eng, gen)
+        # the independent raw-table reader belongs to C11: in a C07 / C08 / C09 run its assertion (which fires BEFORE the API-level comparison)
+        # would end the path as "another property's assertion" and hide the API-level violation behind it (found with seeded change C07-1)
+        if READER_ON: raw_reader.install(eng, gen)
         eng.inc_timeout_ms = 1000; eng.timeout_ms = 10000
     return install
 for _g, _n in ((2, 7), (1, 11)):
     for _i in range(_n): common.register_models('rel_g%d_s%d' % (_g, _i), _mk(_g, _i))
 
+READER_ON = False
 ROOT, ROOT_AFTER, SUB, SUB_AFTER, RENAME, MOVE, REMOVE = range(7)
 def enc(ops, word=0):
     w = 0
@@ -87,6 +90,8 @@ def native_validate(ck, results, per_job=4):
     return bad
 
 def run(prop, assert_filter, gens=(2,), members=(), entities=True, must=('prefix-built', 'checked')):
+    global READER_ON
+    READER_ON = (prop == 'C11')
     ck = Check(prop)
     ck.assert_filter = assert_filter
     # the raw-table reader (C11) only exists on the model side: its counterexamples cannot be confirmed by the native twin, which has no reader
